@@ -6,6 +6,7 @@ from ..core import Op, jkey
 from ..rat import rat, frac, round_once_eq, tol_eq
 from ..symtrace import Sym
 from .. import gen_geom
+from .. import c06_route
 
 PROPERTY = "C06"
 LEAN_MODULE = "Proofs.C06"
@@ -16,33 +17,54 @@ THEOREMS = [_T + n for n in [
     "timeIoU_shift", "boxInter_le_min", "boxInter_symm", "boxInter_self", "boxInter_disjoint", "box_shift",
     "affinity_ok_iff", "C06_range", "affinityP_symm", "C06_symm", "C06_self_one", "C06_disjoint_zero", "C06_box_closed_form",
     "C06_time_only_is_time_iou", "C06_time_branch_composes", "C06_time_extents", "C06_negative_buffer", "C06_shift_invariant",
-    "C06_model_holds", "C06_contracts_satisfiable", "C06_pinned_formula_exceeds_one"]]
+    "C06_model_holds", "C06_contracts_satisfiable", "C06_pinned_formula_exceeds_one",
+    # review: the route (tied for all 81 type pairs), the rounding arithmetic, closed-form time-only pairs, shift
+    "C06_route_composes", "C06_routeR_composes", "affinityR_id", "routeR_id", "timeIoUR_id", "iouCR_id",
+    "timeIoUR_range", "timeIoUR_symm", "timeIoUR_self", "timeIoUR_disjoint",
+    "iouCR_range", "iouCR_symm", "iouCR_self", "iouCR_zero",
+    "C06_range_rounded", "C06_symm_rounded", "C06_self_one_rounded", "C06_disjoint_zero_rounded",
+    "C06_roundings_exist", "C06_time_only_closed_form", "C06_shift_invariant_strong",
+    "C06_boundsExact_satisfiable"]]
 LEVEL_TEXT = ("Lean theorems over the model of compute_affinity (everything GEOS computes is a parameter): the IoU and "
               "time-IoU formulas (range, symmetry, self, zero, shift), rectangle closed forms, and for the dispatcher "
               "range under `Sane`, symmetry / self = 1 / time-disjoint = 0 under `Sound`, the box closed form under "
-              "`BoxExact`, time-only = time IoU, shift invariance under `ShiftInv`; the contracts are proved satisfiable. "
-              "Formulas and the time-only dispatch are re-derived from the source by symbolic tracing on every run and "
-              "proved equal to the model for all inputs; the type tables are re-extracted; all 81 type pairs run "
-              "differentially; range / symmetry / self / disjoint / shift are judged on every real output.")
-LEVEL_NOTE = ("Unmodelled: GEOS overlay, buffer and area in binary64 (parameters of the model; `Sane` checked exactly and "
-              "`Sound` up to 2^-40 on every measured value); binary64 rounding of the final ratio off the dyadic grid. "
-              "Known findings: argument-order dependence and self-affinity just below 1, both <= 2^-40, in the area branch. "
+              "`BoxExact`, time-only = time IoU (in closed form from the coordinates, polygons included, under `BoundsExact`), "
+              "shift invariance under `ShiftInv`; the contracts are proved satisfiable.  The same dispatcher operation by "
+              "operation in any rounding arithmetic (`affinityR rnd`, laws `IsRounding`): range, symmetry, self = 1 and "
+              "disjoint = 0 are proved there too, so they hold of the binary64 computation and not only of its rational "
+              "idealisation.  The whole of compute_affinity is re-derived from the source by symbolic tracing on every run - "
+              "all 81 ordered type pairs, for every rounding, every GEOS parameter, all coordinates and buffers - and proved "
+              "equal to the model; so are both formulas and the closed-form buffers; the type tables are re-extracted; all 81 "
+              "type pairs run differentially (bit for bit against the binary64 evaluation of the model off the grid); range / "
+              "symmetry / self / disjoint / shift are judged on every real output.")
+LEVEL_NOTE = ("Unmodelled: GEOS overlay, buffer and area in binary64 (parameters of the model; `Sane` and `BoundsExact` checked "
+              "exactly and `Sound` up to 2^-40 on every measured value).  That binary64 round-to-nearest obeys `IsRounding` "
+              "(monotone, exact on 0 and 1, idempotent, exact doubling) is assumed, not proved; the driver's executable "
+              "`rnd64` is compared with Python's correctly rounded float(Fraction) on every run.  "
+              "Known findings: argument-order dependence and self-affinity just below 1, both <= 2^-40, in the area branch "
+              "(they come from GEOS, i.e. from `Sound` failing in the last bits, not from the arithmetic of compute_affinity). "
               "Model tied to the code by regenerated obligations and generator-bounded correspondence.")
-TECHNIQUE = ("Lean 4 proof over model with GEOS as a parameter under explicit contracts; symbolic-trace equality and table "
-             "obligations regenerated from source; differential correspondence over all 81 type pairs; property monitor on real outputs")
-RULE = ("all 81 ordered type pairs x buffers on dyadic grids and with arbitrary binary64 coordinates, self pairs, touching / "
-        "nested / zero-extent placements, exhaustive small interval / box grids, shifted pairs; non-trivial = the "
-        "implementation returned a number and at least one of the two orders is positive or the pair is disjoint in time; "
-        "distinct = distinct (operation, input)")
-TRUSTED = ["shapely/GEOS area, intersection, buffer, bounds (measured per case; contracts Sane exactly, Sound up to 2^-40)",
-           "symbolic tracer stubs: geometry stand-ins with .type/.coordinates, shapely stand-ins with symbolic areas, "
-           "data.TimeInterval replaced by a record, compute_bounds by the coordinates"]
+TECHNIQUE = ("Lean 4 proof over model with GEOS as a parameter under explicit contracts, in exact and in rounding arithmetic; "
+             "symbolic-trace equality (whole function, all 81 type pairs, rounding-aware) and table obligations regenerated "
+             "from source; differential correspondence over all 81 type pairs, bit-exact against a binary64 evaluation of "
+             "the model; property monitor on real outputs")
+RULE = ("all 81 ordered type pairs x buffers on dyadic grids and with arbitrary binary64 coordinates, self pairs (aliased and "
+        "not), touching / nested / zero-extent / tiny-overlap / full-band placements, exhaustive small interval / box grids, "
+        "shifted pairs; non-trivial = the implementation returned a number and at least one of the two orders is positive or "
+        "the pair is disjoint in time; distinct = distinct (operation, input)")
+TRUSTED = ["shapely/GEOS area, intersection, buffer, bounds (measured per case; contracts Sane and BoundsExact exactly, Sound up to 2^-40)",
+           "symbolic tracer stubs: geometries with .type/.coordinates and the Lean term they stand for, shapely stand-ins whose "
+           "area / intersection area / bounds are atoms `G.area x`, `G.inter x y`, `G.st x`, `G.en x` of the model's parameter "
+           "(bounds of a TimeStamp / TimeInterval / BoundingBox: the coordinates, contract BoundsExact), data.TimeInterval "
+           "replaced by a record, buffer_shapely_geometry by a marker recording its arguments",
+           "binary64 arithmetic of CPython is IEEE-754 round-to-nearest-even (the driver's rnd64 is compared with it on every run)"]
 ASSUMPTIONS = ["geometries are valid and polygonal ones non-self-intersecting (generators retry until shapely says valid)",
                "buffers are non-negative, and strictly positive when a 0/1-dimensional geometry is involved",
                "binary64 arithmetic is exact on the dyadic grids used for the round-once comparisons",
+               "binary64 round-to-nearest-even obeys `IsRounding` on the magnitudes that occur (no overflow)",
                "GEOS satisfies `Sound` exactly only in exact arithmetic; in binary64 it does up to a relative 2^-40 (monitored)"]
-NOT_COMPARED = ["negative buffers (outside the property's quantifier)",
-                "GEOS pairs and free-mode coordinates are compared with tolerance 2^-40, not bit for bit",
+NOT_COMPARED = ["negative buffers (outside the property's quantifier; modelled and tied symbolically, not run differentially)",
+                "GEOS pairs on the grid are compared with tolerance 2^-40; off the grid bit for bit given the measured GEOS values",
                 "error messages"]
 
 TOL = Fraction(1, 2 ** 40)
@@ -73,9 +95,50 @@ def _impl_pair(inp):
     from soundevent.evaluation import compute_affinity
     g1, g2 = gen_geom.to_data(inp["g1"]), gen_geom.to_data(inp["g2"])
     tb, fb = _f(inp["tb"]), _f(inp["fb"])
-    a12 = compute_affinity(g1, g2, time_buffer=tb, freq_buffer=fb)
+    if inp["g1"] == inp["g2"]:
+        # a self pair: once with one and the same object on both sides (aliasing), once with two equal objects
+        a12 = compute_affinity(g1, g1, time_buffer=tb, freq_buffer=fb)
+    else:
+        a12 = compute_affinity(g1, g2, time_buffer=tb, freq_buffer=fb)
     a21 = compute_affinity(g2, g1, time_buffer=tb, freq_buffer=fb)
-    return {"val": [rat(float(a12)), rat(float(a21))]}
+    # the arguments must come back unchanged (compute_affinity has no business mutating them)
+    out = {"val": [rat(float(a12)), rat(float(a21))]}
+    for g, gj in ((g1, inp["g1"]), (g2, inp["g2"])):
+        if gen_geom.from_data(g) != gen_geom.from_data(gen_geom.to_data(gj)):
+            out["mutated"] = gen_geom.from_data(g)
+    if len(_IMPL_SEEN) < 20000:
+        _IMPL_SEEN[jkey(inp)] = out
+    return out
+
+
+_IMPL_SEEN = {}
+
+
+def _impl_bits(inp):
+    """the outputs `_impl_pair` already observed for this input (no second evaluation), else a fresh one"""
+    k = jkey(inp)
+    if k not in _IMPL_SEEN:
+        return _impl_pair(inp)
+    return _IMPL_SEEN[k]
+
+
+def _to_model64(inp):
+    """every shape measured (boxes of the area branch too): what `affinityR rnd64` needs"""
+    return _measure({**inp, "mode": "free"})["args"]
+
+
+def _compare_bits(inp, io, mo):
+    if "raise" in io or "raise" in mo:
+        a = {k: v for k, v in io.items() if k != "trace"}
+        return None if a == mo else "implementation and model disagree (exception)"
+    if "measure_error" in _measure({**inp, "mode": "free"}):
+        return None
+    for k in (0, 1):
+        if frac(mo["val"][k]) != frac(io["val"][k]):
+            return (f"compute_affinity {'(g1, g2)' if k == 0 else '(g2, g1)'} = {float(frac(io['val'][k]))!r} is not the binary64 "
+                    f"evaluation of the model's operations on the same GEOS values ({float(frac(mo['val'][k]))!r}): the order "
+                    "of floating-point operations changed")
+    return None
 
 
 def _shift_geom(gj, d):
@@ -131,7 +194,9 @@ def _measure(inp):
     if time_branch:
         need = [kd in ("plain", "buffered") for kd in kinds]
         boxes_measured = False
-        info["closed"] = grid and not any(need)
+        # a (multi)polygon side has exact bounds (min / max of coordinates: contract BoundsExact, checked
+        # exactly below), so only a GEOS-buffered side takes a pair out of the closed forms
+        info["closed"] = grid and "buffered" not in kinds
     else:
         both_boxes = kinds == ["box", "box"]
         boxes_measured = not (both_boxes and grid)
@@ -168,6 +233,13 @@ def _measure(inp):
     args = info["args"]
     args["obs"] = obs
     args["boxes_measured"] = boxes_measured
+    # contract BoundsExact on the sides shapely measured without buffering: bounds = min / max of the coordinates
+    bx = []
+    for gj, kd, ob in zip((inp["g1"], inp["g2"]), kinds, obs):
+        if ob is not None and kd in ("plain", "box"):
+            mb = _model("bounds", {"g": gj})
+            bx.append((gj, ob, "val" in mb and frac(mb["val"][0]) == frac(ob["st"]) and frac(mb["val"][2]) == frac(ob["en"])))
+    info["bounds_exact"] = bx
     if inter is not None:
         args["inter"] = inter
         info["measured_pair"] = True
@@ -262,11 +334,15 @@ def _contracts(ctx, inp, info):
 def _holds_pair(ctx, inp, io):
     if "raise" in io:
         return "compute_affinity raised " + str(io["raise"])
+    if "mutated" in io:
+        return "compute_affinity changed one of its arguments in place: " + jkey(io["mutated"])[:200]
     info = _measure(inp)
     if info["branch"] == "error":
         return None
     if "measure_error" in info:
         ctx.tally("shapely could not measure the prepared geometry although compute_affinity returned")
+    for gj, ob, ok in info.get("bounds_exact", ()):
+        ctx.contract("BoundsExact: shapely bounds = min / max of the coordinates (exact)", ok, inp, {"g": gj, "obs": ob})
     _contracts(ctx, inp, info)
     a12, a21 = io["val"]
     same = inp["g1"] == inp["g2"]
@@ -336,6 +412,11 @@ OPS = {
                           nontrivial=_nontrivial, mode="round-once", model_op="affinity_pair"),
     "affinity_geos": Op("affinity_geos", _impl_pair, to_model=_to_model, compare=_compare_pair, holds=_holds_pair,
                         nontrivial=_nontrivial, mode="tolerance", model_op="affinity_pair"),
+    # bit-for-bit: the model's operations evaluated in binary64 (`affinityR rnd64`) on the GEOS values the harness
+    # measured.  Not `determined`: the property does not pin the last bit, so a disagreement is a broken tie (the
+    # floating-point theorems no longer describe the code) and `search` looks for an input violating the property
+    "affinity_bits": Op("affinity_bits", _impl_bits, to_model=_to_model64, compare=_compare_bits, determined=False,
+                        nontrivial=_nontrivial, mode="exact", model_op="affinity64"),
     "shift": Op("shift", _impl_shift, to_model=_to_model, compare=_compare_shift, holds=_holds_shift,
                 nontrivial=_nontrivial, mode="tolerance", model_op="affinity_pair"),
 }
@@ -376,16 +457,35 @@ FINDING_MATCHERS = {"geos_order_ulp": _match_order_ulp, "geos_self_below_one_ulp
 # ---------------------------------------------------------------- tie 1: tables
 def _tables(ctx):
     import soundevent.evaluation.affinity as A
-    for pyname, lean in (("BUFFER_GEOMETRY_TYPES", "SE.Affinity.bufferTypes"), ("TIME_GEOMETRY_TYPES", "SE.Affinity.timeTypes")):
+    tabs = {}
+    for pyname in ("BUFFER_GEOMETRY_TYPES", "TIME_GEOMETRY_TYPES"):
         tbl = getattr(A, pyname, None)
-        if tbl is None or not all(isinstance(x, str) for x in tbl):
+        try:
+            ok = tbl is not None and all(isinstance(x, str) for x in tbl)
+        except TypeError:
+            ok = False
+        if not ok:
             ctx.pre_failed.append(pyname)
             ctx.fail("obligation", pyname, detail=f"table {pyname} is gone or is not a collection of type names",
                      extra={"op": "affinity_geos"})
             continue
-        items = ", ".join('"%s"' % x for x in sorted(tbl))
-        ctx.obligation(pyname, f"theorem tbl_{pyname} : ([{items}] : List String) = {lean} := by\n  se_close\n",
-                       {"op": "affinity_geos", "extracted": sorted(tbl)})
+        tabs[pyname] = sorted(set(tbl))
+    if "BUFFER_GEOMETRY_TYPES" in tabs:
+        # every one of the nine input types meets this table: it must be the model's list
+        items = ", ".join('"%s"' % x for x in tabs["BUFFER_GEOMETRY_TYPES"])
+        ctx.obligation("BUFFER_GEOMETRY_TYPES",
+                       f"theorem tbl_BUFFER_GEOMETRY_TYPES : ([{items}] : List String) = SE.Affinity.bufferTypes := by\n  se_close\n",
+                       {"op": "affinity_geos", "extracted": tabs["BUFFER_GEOMETRY_TYPES"]})
+    if "TIME_GEOMETRY_TYPES" in tabs:
+        # only the types of *prepared* geometries meet this table (a buffered type never does: it has become a
+        # TimeInterval or a (Multi)Polygon): the table must agree with the model's on those, nothing more
+        items = ", ".join('"%s"' % x for x in tabs["TIME_GEOMETRY_TYPES"])
+        ctx.obligation("TIME_GEOMETRY_TYPES",
+                       "theorem tbl_TIME_GEOMETRY_TYPES : ∀ tag ∈ ([\"TimeInterval\", \"Polygon\", \"MultiPolygon\", \"BoundingBox\", "
+                       "\"TimeStamp\", \"Point\", \"LineString\", \"MultiPoint\", \"MultiLineString\"] : List String),\n"
+                       "    SE.Affinity.bufferTypes.contains tag = true ∨\n"
+                       f"    ([{items}] : List String).contains tag = SE.Affinity.timeTypes.contains tag := by\n  decide\n",
+                       {"op": "affinity_closed", "extracted": tabs["TIME_GEOMETRY_TYPES"]})
 
 
 # ---------------------------------------------------------------- tie 1b: symbolic traces
@@ -428,15 +528,21 @@ def _symbolic_ties(ctx):
     shapes = {"x": _ShapeStub("x", a, inter), "y": _ShapeStub("y", b, inter)}
 
     def run_area():
-        saved = (A._prepare_geometry, A.geometry_to_shapely)
-        A._prepare_geometry = lambda g, *aa, **kw: g
+        # a Polygon is not buffered: the real `_prepare_geometry` hands the stand-ins on unchanged
+        saved = A.geometry_to_shapely
         A.geometry_to_shapely = lambda g: shapes[g.coordinates]
         try:
             return A.compute_affinity(_GeomStub("Polygon", "x"), _GeomStub("Polygon", "y"))
         finally:
-            A._prepare_geometry, A.geometry_to_shapely = saved
+            A.geometry_to_shapely = saved
     ctx.sym_tie("ext_iou", run_area, V, "Rat", "some (SE.Affinity.iouC a b i)",
                 tactic="unfold ext_iou SE.Affinity.iouC\n  se_close", meta={"op": "affinity_geos"})
+
+    # (b), (c) need the name `compute_affinity_in_time`; if the code no longer has it the marker-free traces of the
+    # whole function (`ext_full_*`, see _route_ties) take their place
+    if not callable(getattr(A, "compute_affinity_in_time", None)):
+        ctx.note("compute_affinity_in_time is gone: the time function is tied through the marker-free traces ext_full_*")
+        return
 
     # (b) the time branch on symbolic bounds
     BV = ["s1", "l1", "e1", "h1", "s2", "l2", "e2", "h2"]
@@ -504,6 +610,91 @@ def _symbolic_ties(ctx):
                         tactic=(f"by_cases hneg : tb < 0 ∨ fb < 0 <;>\n    simp [hneg, {', '.join(unf.split())}] <;>\n"
                                 f"    unfold {name} <;> grind"),
                         meta={"op": "affinity_closed"})
+
+
+def _custom_tie(ctx, name, gen, meta):
+    """like ctx.sym_tie for obligations with their own binders: a trace that fails is a broken obligation"""
+    from ..leanio import InfraError
+    try:
+        src, n = gen()
+    except InfraError:
+        raise
+    except Exception as e:  # noqa: BLE001
+        ctx.symbolic_ties[name] = {"error": repr(e)[:300]}
+        ctx.pre_failed.append(name)
+        ctx.fail("obligation", name, detail=f"symbolic trace of the current source failed: {e!r}", extra=dict(meta))
+        return
+    ctx.symbolic_ties[name] = {"paths": n}
+    ctx.obligation(name, "set_option linter.unusedSimpArgs false\n" + src, meta)
+
+
+def _rounded_ties(ctx):
+    """the two formulas operation by operation in a rounding arithmetic (every result wrapped in `rnd`)"""
+    import soundevent.evaluation.affinity as A
+    R = c06_route
+    a, b, i = [R.rvar(n) for n in "abi"]
+    inter = {("x", "y"): i}
+    shapes = {"x": _ShapeStub("x", a, inter), "y": _ShapeStub("y", b, inter)}
+
+    def run_area():
+        # a Polygon is not buffered: the real `_prepare_geometry` hands the stand-ins on unchanged
+        saved = A.geometry_to_shapely
+        A.geometry_to_shapely = lambda g: shapes[g.coordinates]
+        try:
+            return A.compute_affinity(_GeomStub("Polygon", "x"), _GeomStub("Polygon", "y"))
+        finally:
+            A.geometry_to_shapely = saved
+    _custom_tie(ctx, "ext_iou_r", lambda: R.formula_obligation(
+        "ext_iou_r", run_area, ["a", "b", "i"], "SE.Affinity.iouCR rnd a b i", "SE.Affinity.iouCR"),
+        {"op": "affinity_geos"})
+    if not callable(getattr(A, "compute_affinity_in_time", None)):
+        return
+    BV = ["s1", "l1", "e1", "h1", "s2", "l2", "e2", "h2"]
+    sy = {n: R.rvar(n) for n in BV}
+
+    def run_time():
+        saved = A.compute_bounds
+        A.compute_bounds = lambda g: g.coordinates
+        try:
+            return A.compute_affinity_in_time(_GeomStub("TimeInterval", tuple(sy[n] for n in BV[:4])),
+                                              _GeomStub("TimeInterval", tuple(sy[n] for n in BV[4:])))
+        finally:
+            A.compute_bounds = saved
+    _custom_tie(ctx, "ext_time_iou_r", lambda: R.formula_obligation(
+        "ext_time_iou_r", run_time, BV, "SE.Affinity.timeIoUR rnd s1 e1 s2 e2", "SE.Affinity.timeIoUR"),
+        {"op": "affinity_closed"})
+
+
+def _buffer_ties(ctx):
+    """buffer_timestamp / buffer_interval / buffer_bounding_box_geometry through the public buffer_geometry"""
+    import soundevent.geometry.operations as O
+    from soundevent import data as real_data
+    for ty in ("TimeStamp", "TimeInterval", "BoundingBox"):
+        _custom_tie(ctx, f"ext_buffer_{ty}", lambda: c06_route.buffer_obligation(f"ext_buffer_{ty}", O, real_data, ty),
+                    {"op": "affinity_closed"})
+
+
+def _route_ties(ctx):
+    """the whole of compute_affinity for every ordered type pair, every `Geos`, all coordinates and buffers, in
+    a rounding arithmetic: which branch, which sides are buffered with which buffers, which extents / areas"""
+    import soundevent.evaluation.affinity as A
+    import soundevent.geometry.operations as O
+    from soundevent import data as real_data
+    R = c06_route
+    # `compute_affinity_in_time` is tied on its own (ext_time_iou, ext_time_iou_r); a marker in its place keeps the
+    # number of paths small.  Without that name (or in the thorough tier) the whole function is traced instead.
+    have_marker = callable(getattr(A, "compute_affinity_in_time", None))
+    for t1 in R.TYPES:
+        for t2 in R.TYPES:
+            geos = any(t in ("Point", "LineString", "MultiPoint", "MultiLineString") for t in (t1, t2)) \
+                or not any(t in ("TimeStamp", "TimeInterval") for t in (t1, t2))
+            meta = {"op": "affinity_geos" if geos else "affinity_closed"}
+            if have_marker:
+                _custom_tie(ctx, f"ext_route_{t1}_{t2}", lambda: R.route_obligation(
+                    f"ext_route_{t1}_{t2}", R.tracer(A, O, real_data, t1, t2), t1, t2), meta)
+            if ctx.thorough() or not have_marker:
+                _custom_tie(ctx, f"ext_full_{t1}_{t2}", lambda: R.full_obligation(
+                    f"ext_full_{t1}_{t2}", R.tracer(A, O, real_data, t1, t2, marker=False), t1, t2), meta)
 
 
 # ---------------------------------------------------------------- generators
@@ -648,6 +839,35 @@ def _exhaustive_closed(thorough):
             yield {"g1": b, "g2": a, "tb": "1/4", "fb": "1/2", "mode": "grid"}
 
 
+def _tiny_overlap_cases():
+    """extents that overlap, or miss each other, by 2^-k (k up to 45): dyadic, so still exact in binary64"""
+    for k in (10, 20, 30, 36, 45):
+        eps = Fraction(1, 2 ** k)
+        for d in (eps, -eps, Fraction(0)):
+            a, b = _interval(1, 2), _interval(2 - d, 3)
+            yield {"g1": a, "g2": b, "tb": "0", "fb": "0", "mode": "grid"}
+            yield {"g1": _box(1, 1, 2, 2), "g2": b, "tb": "0", "fb": "0", "mode": "grid"}
+            yield {"g1": _box(1, 1, 2, 2), "g2": _box(2 - d, 1, 3, 2), "tb": "0", "fb": "0", "mode": "grid"}
+            yield {"g1": _stamp(1), "g2": _interval(Fraction(5, 4) - d, 2), "tb": "1/4", "fb": "1", "mode": "grid"}
+            yield {"g1": _stamp(1), "g2": _stamp(Fraction(3, 2) - d), "tb": "1/4", "fb": "1", "mode": "grid"}
+            yield {"g1": _interval(1, 1 + eps), "g2": _interval(1, 1 + eps), "tb": "0", "fb": "0", "mode": "grid"}
+
+
+def _full_band_cases(rng, reps):
+    """bounding boxes that touch frequency 0 and / or MAX_FREQUENCY against every type"""
+    M = gen_geom.MAXF
+    for _ in range(reps):
+        s = Fraction(rng.randint(0, 8), 4)
+        w = Fraction(rng.randint(1, 8), 4)
+        for lo, hi in ((0, M), (0, 2), (M - 2, M)):
+            bx = _box(s, lo, s + w, hi)
+            for ty in gen_geom.TYPES:
+                g = _valid(rng, ty, tmax=4, fmax=4, k=2)
+                tb, fb = _bufs(rng, bx, g, "grid")
+                yield {"g1": bx, "g2": g, "tb": tb, "fb": fb, "mode": "grid"}
+        yield {"g1": _box(s, 0, s + w, M), "g2": _box(s, 0, s + w, M), "tb": "1/4", "fb": "1/2", "mode": "grid"}
+
+
 def _boundary_geos(rng, reps):
     """touching, nested and identical-but-differently-typed shapes through GEOS"""
     for _ in range(reps):
@@ -683,6 +903,8 @@ def _shift_cases(rng, reps):
 # ---------------------------------------------------------------- run / search
 def _correspondence(ctx):
     _run_pairs(ctx, list(_exhaustive_closed(ctx.thorough())))
+    _run_pairs(ctx, list(_tiny_overlap_cases()))
+    _run_pairs(ctx, list(_full_band_cases(ctx.rng, ctx.budget(4, 30))))
     ctx.exhaustive["closed forms"] = ("all interval x interval, time stamp x interval (4 buffers), time stamp x time stamp, "
                                       "box x box and box x interval placements on a half-second / 1 Hz grid")
     _run_pairs(ctx, list(_pair_cases(ctx.rng, ctx.budget(16, 120), "grid")))
@@ -691,8 +913,29 @@ def _correspondence(ctx):
 
 
 def _free_mode(ctx):
-    _run_pairs(ctx, list(_pair_cases(ctx.rng, ctx.budget(10, 80), "free")))
-    _run_pairs(ctx, list(_self_cases(ctx.rng, ctx.budget(80, 800), "free")))
+    pairs = list(_pair_cases(ctx.rng, ctx.budget(10, 80), "free"))
+    selfs = list(_self_cases(ctx.rng, ctx.budget(80, 800), "free"))
+    _run_pairs(ctx, pairs)
+    _run_pairs(ctx, selfs)
+    # the same observations against the binary64 evaluation of the model, bit for bit
+    ctx.run_cases(OPS["affinity_bits"], pairs + selfs[:ctx.budget(240, 2400)] + list(_tiny_overlap_cases()))
+
+
+def _rnd64_contract(ctx):
+    """the driver's `rnd64` is binary64 round-to-nearest-even: compared with Python's correctly rounded
+    `float(Fraction)` on random rationals, sums / differences / quotients of floats and exact ties"""
+    rng = ctx.rng
+    xs = []
+    for _ in range(ctx.budget(150, 1500)):
+        a, b = rng.uniform(0, 10), rng.uniform(1e-3, 5000)
+        xs += [Fraction(a) + Fraction(b), Fraction(a) - Fraction(b), Fraction(a) / Fraction(b),
+               Fraction(rng.randint(-10 ** 6, 10 ** 6), rng.randint(1, 10 ** 6))]
+    xs += [Fraction(2 ** 53 + 1, 2 ** 60), Fraction(2 ** 53 + 3, 2 ** 60), Fraction(-(2 ** 53 + 1), 2 ** 10), Fraction(1),
+           Fraction(0), Fraction(1, 3), Fraction(5_000_000)]
+    outs = ctx.model_many("rnd64", [{"x": rat(x)} for x in xs])
+    for x, mo in zip(xs, outs):
+        ctx.contract("rnd64 = binary64 round-to-nearest-even (against float(Fraction))",
+                     frac(mo["val"]) == Fraction(float(x)), None, {"x": rat(x), "rnd64": mo["val"]})
 
 
 def _shifts(ctx):
@@ -703,15 +946,39 @@ def _corpus(ctx):
     ctx.run_corpus(OPS)
 
 
+def _bounds_contract(ctx):
+    """contract BoundsExact (hypothesis of C06_time_only_closed_form, and what the route traces put in place of
+    `shp.bounds` for a TimeStamp / TimeInterval / BoundingBox): `compute_bounds(g)` is the coordinate-wise
+    minimum / maximum `Geom.bounds g` — exactly, for all nine types, on grid and arbitrary binary64 coordinates"""
+    from soundevent.geometry import compute_bounds
+    n = ctx.budget(12, 60)
+    geoms = [gen(ctx.rng, ty) for ty in gen_geom.TYPES for gen in (_grid_geom, _free_geom) for _ in range(n)]
+    mos = ctx.model_many("bounds", [{"g": g} for g in geoms])
+    for g, mo in zip(geoms, mos):
+        try:
+            got = [rat(float(x)) for x in compute_bounds(gen_geom.to_data(g))]
+        except Exception as e:  # noqa: BLE001
+            got = repr(e)[:200]
+        ok = "val" in mo and isinstance(got, list) and [frac(x) for x in got] == [frac(x) for x in mo["val"]]
+        ctx.contract("BoundsExact: compute_bounds = min / max of the coordinates (exact; all nine types)", ok,
+                     {"g1": g, "g2": g, "tb": "1/4", "fb": "1/2", "mode": "grid"}, {"bounds": got, "model": mo})
+
+
 def run(ctx):
     global _CTX
     _CTX = ctx
     _CACHE.clear()
+    _IMPL_SEEN.clear()
     ctx.stage("tables", _tables, ctx)
     ctx.stage("symbolic-ties", _symbolic_ties, ctx)
+    ctx.stage("symbolic-ties (rounding arithmetic)", _rounded_ties, ctx)
+    ctx.stage("symbolic-ties (closed-form buffers)", _buffer_ties, ctx)
+    ctx.stage("symbolic-ties (routes of all 81 type pairs)", _route_ties, ctx)
     ctx.stage("discharge", ctx.discharge, ["SoundeventModel.Affinity", "SoundeventModel.Ops.C06", "SoundeventModel.Tactics"])
     ctx.stage("corpus", _corpus, ctx)
+    ctx.stage("bounds contract", _bounds_contract, ctx)
     ctx.stage("correspondence on grids", _correspondence, ctx)
+    ctx.stage("rnd64 contract", _rnd64_contract, ctx)
     ctx.stage("free mode", _free_mode, ctx)
     ctx.stage("shift", _shifts, ctx)
 
@@ -719,6 +986,8 @@ def run(ctx):
 def search(ctx, failures):
     """a tie, a contract or the correspondence broke: every type pair again, wider, and let the monitor judge"""
     ctx.stage("search: closed forms", lambda: _run_pairs(ctx, list(_exhaustive_closed(True))))
+    ctx.stage("search: tiny overlaps", lambda: _run_pairs(ctx, list(_tiny_overlap_cases())))
+    ctx.stage("search: full-band boxes", lambda: _run_pairs(ctx, list(_full_band_cases(ctx.rng, 6))))
     ctx.stage("search: grid pairs", lambda: _run_pairs(ctx, list(_pair_cases(ctx.rng, 10, "grid"))))
     ctx.stage("search: self pairs", lambda: _run_pairs(ctx, list(_self_cases(ctx.rng, 40, "grid"))))
     ctx.stage("search: free pairs", lambda: _run_pairs(ctx, list(_pair_cases(ctx.rng, 4, "free"))))
